@@ -20,7 +20,7 @@ def specInit : SpecSt := {}
 
 inductive Clause
   | flapOnToggle | flapNoToggle | stateNone | stateWhileFlappingOrPaused | stateWhileSuppressed
-  | stateImmediate | fireNoPending | fireSuppressed | fireRelease | fireNotReady | fireFlap | dropped
+  | stateImmediate | fireNoPending | fireSuppressed | fireRelease | fireNotReady | fireFlap | dropped | remembered | lostUpdate
   deriving Repr, DecidableEq
 
 def Clause.name : Clause → String
@@ -36,6 +36,8 @@ def Clause.name : Clause → String
   | .fireNotReady => "no_release_before_hard_and_settled"
   | .fireFlap => "withheld_flapping_notification_rule"
   | .dropped => "dropped_result_sends_nothing"
+  | .remembered => "withheld_event_and_hard_state_before_suppression_remembered"
+  | .lostUpdate => "handler_and_concurrent_result_as_if_one_after_the_other"
 
 def isFlap (n : Notif) : Bool := n.ty == .flapStart || n.ty == .flapEnd
 def flapPart (ns : List Notif) : List Notif := ns.filter isFlap
@@ -95,10 +97,17 @@ def specResult (c : Cfg) (sp : SpecSt) (nstate : SState) (nstype : SType) (e : R
   (match f.1 with | some cl => some cl | none => s.1,
    { state := nstate, stype := nstype, pending := s.2, flapPending := f.2 })
 
+/-- "Its next check is imminent": active checks are switched on and the next check is due within the
+    next minute — for check intervals below 70 s within `interval − 10 s` (never a negative span), so
+    that an object whose checks are always less than a minute apart is not waited for forever.
+    Microseconds. -/
+def imminent (e : FEnv) : Bool :=
+  e.activeChecks && decide (e.nextIn ≤ min 60000000 (max 0 (e.interval - 10000000)))
+
 /-- Withheld state notification when the handler runs. -/
 def specFireState (c : Cfg) (sp : SpecSt) (e : FEnv) (stn : List Notif) : Option Clause × Option SState :=
   let off := e.paused || !e.enabled
-  let settled := sp.stype == .hard && !e.likelySoon && !e.parentRecent
+  let settled := sp.stype == .hard && !imminent e && !e.parentRecent
   match sp.pending with
   | none => ((if stn == [] then none else some .fireNoPending), none)
   | some p =>
@@ -118,7 +127,7 @@ def specFireFlap (sp : SpecSt) (e : FEnv) (fl : List Notif) : Option Clause × O
   | some isStart =>
     if off then ((if fl == [] then none else some .fireFlap), some isStart)
     else if isStart == e.isFlapping then
-      if !e.inDowntime && !e.likelySoon && !e.parentRecent then
+      if !e.inDowntime && !imminent e && !e.parentRecent then
         let t : NType := if isStart then .flapStart else .flapEnd
         ((if fl == [⟨t, sp.state⟩] then none else some .fireFlap), none)
       else ((if fl == [] then none else some .fireFlap), some isStart)
@@ -131,16 +140,72 @@ def specFire (c : Cfg) (sp : SpecSt) (e : FEnv) (ns : List Notif) : Option Claus
   (match a.1 with | some cl => some cl | none => f.1,
    { sp with pending := a.2, flapPending := f.2 })
 
-/-- Observed operations. -/
+/-- "The event is remembered together with the hard state before suppression began": the object's
+    `suppressed_notifications` attribute carries a state bit (`supState`) exactly while the property
+    regards state notifications as withheld, and `state_before_suppression` (`sbs`) then is the
+    remembered hard state (hosts: as Up/Down). -/
+def specRemembered (c : Cfg) (pend : Option SState) (supState : Bool) (sbs : SState) : Option Clause :=
+  match pend with
+  | none => if supState then some .remembered else none
+  | some p => if supState && proj c.kind sbs == proj c.kind p then none else some .remembered
+
+/-- Observed operations.  `supState`/`sbs`: the two attributes as read from the object after the operation. -/
 inductive Obs
-  | result (accepted : Bool) (nstate : SState) (nstype : SType) (e : REnv) (ns : List Notif)
-  | fire (e : FEnv) (ns : List Notif)
+  | result (accepted : Bool) (nstate : SState) (nstype : SType) (e : REnv) (ns : List Notif) (supState : Bool) (sbs : SState)
+  | fire (e : FEnv) (ns : List Notif) (supState : Bool) (sbs : SState)
   deriving Repr
 
-def specStep (c : Cfg) (sp : SpecSt) : Obs → Option Clause × SpecSt
-  | .result false _ _ _ ns => ((if ns == [] then none else some .dropped), sp)
-  | .result true nstate nstype e ns => specResult c sp nstate nstype e ns
-  | .fire e ns => specFire c sp e ns
+/-- The clauses about what is requested. -/
+def specStepCore (c : Cfg) (sp : SpecSt) : Obs → Option Clause × SpecSt
+  | .result false _ _ _ ns _ _ => ((if ns == [] then none else some .dropped), sp)
+  | .result true nstate nstype e ns _ _ => specResult c sp nstate nstype e ns
+  | .fire e ns _ _ => specFire c sp e ns
+
+def Obs.supState : Obs → Bool
+  | .result _ _ _ _ _ b _ => b
+  | .fire _ _ b _ => b
+
+def Obs.sbs : Obs → SState
+  | .result _ _ _ _ _ _ s => s
+  | .fire _ _ _ s => s
+
+/-- One observed operation: what is requested, then what is remembered. -/
+def specStep (c : Cfg) (sp : SpecSt) (o : Obs) : Option Clause × SpecSt :=
+  let r := specStepCore c sp o
+  (match r.1 with | some cl => some cl | none => specRemembered c r.2.pending o.supState o.sbs, r.2)
+
+/-- All ways to cut a list in two. -/
+def splits (ns : List Notif) : List (List Notif × List Notif) :=
+  (List.range (ns.length + 1)).map fun i => (ns.take i, ns.drop i)
+
+/-- The handler runs while another thread processes a check result.  The property speaks about
+    operations that happen one after the other ("for all interleavings of …"), so the pair must look
+    like one of the two orders: handler then result (environment `ePre`), or result then handler
+    (environment `ePost`, read after the result) — for some attribution of the observed requests
+    `ns` to the two.  Attributes are observed after the pair only. -/
+def specFireResult (c : Cfg) (sp : SpecSt) (ePre ePost : FEnv) (acc : Bool) (nstate : SState) (nstype : SType)
+    (er : REnv) (ns : List Notif) (supState : Bool) (sbs : SState) : Option Clause × SpecSt :=
+  let orderA (p : List Notif × List Notif) : Option SpecSt :=
+    match specStepCore c sp (.fire ePre p.1 false .ok) with
+    | (none, sp1) =>
+      (match specStep c sp1 (.result acc nstate nstype er p.2 supState sbs) with
+       | (none, sp2) => some sp2
+       | _ => none)
+    | _ => none
+  let orderB (p : List Notif × List Notif) : Option SpecSt :=
+    match specStepCore c sp (.result acc nstate nstype er p.1 false .ok) with
+    | (none, sp1) =>
+      (match specStep c sp1 (.fire ePost p.2 supState sbs) with
+       | (none, sp2) => some sp2
+       | _ => none)
+    | _ => none
+  match (splits ns).findSome? orderA with
+  | some sp' => (none, sp')
+  | none =>
+    match (splits ns).findSome? orderB with
+    | some sp' => (none, sp')
+    | none => (some .lostUpdate,
+        (specStepCore c (specStepCore c sp (.fire ePre [] false .ok)).2 (.result acc nstate nstype er [] false .ok)).2)
 
 def specTrace (c : Cfg) : SpecSt → List Obs → Option Clause
   | _, [] => none
